@@ -64,7 +64,8 @@ type FSCall struct {
 type File struct {
 	fs      *FS
 	Ino     *Inode
-	Path    string
+	Path    string // cleaned absolute path (what the oracles look at)
+	Given   string // the name as it was passed to OpenFile: what Name() reports, like (*os.File).Name
 	Flag    int
 	Closed  bool
 	pos     int
@@ -218,7 +219,7 @@ func (f *FS) OpenFile(name string, flag int, perm os.FileMode) (*File, error) {
 		n.MTime = f.x.Now
 	}
 	f.nfd++
-	fl := &File{fs: f, Ino: n, Path: p, Flag: flag, ID: f.nfd}
+	fl := &File{fs: f, Ino: n, Path: p, Given: name, Flag: flag, ID: f.nfd}
 	f.Open[fl] = struct{}{}
 	f.log(FSCall{Op: "open", Path: p, Flag: flag, FD: fl.ID})
 	return fl, nil
@@ -347,6 +348,9 @@ func (fl *File) Close() error {
 func (fl *File) Name() string {
 	if fl.real != nil {
 		return fl.real.Name()
+	}
+	if fl.Given != "" {
+		return fl.Given
 	}
 	return fl.Path
 }
